@@ -303,6 +303,54 @@ def run_hist1d_scatter_plot(rep, tier, rng):
             rep.validated()
 
 
+def run_map_scatter_layer(rep, tier, rng):
+    """a scatter layer on a map (sink particles over a slice): its colour and size options come from the layer, else from the
+    call, and the arguments are left as they were"""
+    import matplotlib.pyplot as plt
+    import numpy as np
+    import osyris
+    from matplotlib.collections import PathCollection
+    from matplotlib.colors import to_rgba
+    for lset in ((), ("c",), ("s",), ("c", "s")):
+        for cset in ((),):          # call-level keyword options go to every layer, and an image layer has no use for c= / s=
+            dg = mesh3()
+            sinks = osyris.Datagroup()
+            sinks["position"] = osyris.Vector(np.array([0.4, 0.6]), np.array([0.45, 0.55]), np.array([0.5, 0.5]), unit="cm")
+            LV, CV = {"c": "white", "s": 30.0}, {"c": "red", "s": 70.0}
+            lkw = {k: LV[k] for k in lset}
+            ckw = {k: CV[k] for k in cset}
+            L = sinks.layer("position", mode="scatter", **lkw)
+            before = (snap_layer(L), {k: snap_array(v) for k, v in sinks.items()})
+            rep.case(klass=("map-scatter-layer", lset, cset))
+            d = None
+            try:
+                with contextlib.redirect_stdout(io.StringIO()):
+                    p = osyris.map(dg.layer("density"), L, dx=1.0 * osyris.units("cm"), origin=osyris.Vector(0.5, 0.5, 0.5, unit="cm"), resolution=4, plot=True, **ckw)
+                pcs = [c for c in p.ax.collections if isinstance(c, PathCollection)]
+                if len(pcs) != 1:
+                    d = f"drawn: {len(pcs)} point collections on the map, expected the one scatter layer"
+                else:
+                    want_c = LV["c"] if "c" in lset else CV["c"] if "c" in cset else None
+                    want_s = LV["s"] if "s" in lset else CV["s"] if "s" in cset else None
+                    fc = pcs[0].get_facecolor()
+                    if want_c is not None and not np.allclose(fc[0], to_rgba(want_c)):
+                        d = f"precedence: points drawn with colour {fc[0].tolist()}, expected {want_c!r} ({'layer' if 'c' in lset else 'call'} level)"
+                    if d is None and want_s is not None and not np.allclose(pcs[0].get_sizes(), want_s):
+                        d = f"precedence: points drawn with size {pcs[0].get_sizes().tolist()}, expected {want_s} ({'layer' if 's' in lset else 'call'} level)"
+                after = (snap_layer(L), {k: snap_array(v) for k, v in sinks.items()})
+                if d is None and not (same_layer(before[0], after[0]) and all(same_array_snap(before[1][k], after[1][k]) for k in before[1])):
+                    d = "arguments: the scatter Layer or its data were modified by the call"
+            except Exception as e:
+                d = f"raises: {type(e).__name__}: {e}"
+            finally:
+                plt.close("all")
+            if d:
+                rep.mismatch({"module": "LayerOptions", "fn": "map", "field": "scatter-layer-" + d.split(":")[0]}, f"scatter layer options {lkw}, call options {ckw}: {d}",
+                             case={"lset": lset, "cset": cset}, module="layers")
+            else:
+                rep.validated()
+
+
 def run_norm_instances(rep, tier, rng):
     """a matplotlib norm object given at call or layer level is an input like any other: it is left as it was (matplotlib
     scales a norm in place when it draws), each layer is scaled on its own data, and vmin/vmax apply as for the named norms"""
@@ -448,6 +496,7 @@ def run_c19(rep, tier, seed):
     run_hist1d_scatter_plot(rep, tier, rng)
     run_orientation_purity(rep, tier, rng)
     run_norm_instances(rep, tier, rng)
+    run_map_scatter_layer(rep, tier, rng)
     rep.sample({"history": chosen[len(one) + 1]["hist"], "layer_level_options": chosen[len(one) + 1]["layer"]}, limit=2)
     rep.part("replay", histories=len(chosen), of_length_1=len(one), of_length_2=len(chosen) - len(one), emitted=len(recs))
     rep.cov["rule"] = ("LayerOptions.tla enumerates every history of up to 2 calls of map / histogram2d over the lattice of call-level option sets (each of mode, norm, vmin, vmax, operation, extra keyword "
